@@ -15,7 +15,7 @@ Inductive sitem :=
 | SDirective (x : str)               (* <!x>       *)
 | SProcInst (t i : str)              (* <?t i?>    *)
 | SRaw (x : str).                    (* bytes that are no XML construct: "<key" for a nil value,
-                                        "<key attrs</key>" under XmlGoEmptyElemSyntax, ... *)
+                                        a scalar under one of the three special keys *)
 
 Definition semit1 (i : sitem) : str :=
   match i with
@@ -122,12 +122,9 @@ Definition sattrs (val : entries) : res (bool * list (str * str)) :=
 Definition is_special_key (key : str) : bool :=
   str_eqb key (commentK o) || str_eqb key (directiveK o) || str_eqb key (procinstK o).
 
-(* the endTag == false exit: "/>", or "</key>" WITHOUT the closing ">" of the start tag under
-   XmlGoEmptyElemSyntax (the code as it is) *)
+(* the endTag == false exit: "/>", or "></key>" under XmlGoEmptyElemSyntax (fix b04ec07) *)
 Definition empty_or_broken (key : str) (attrs : list (str * str)) : list sitem :=
-  if useGoXmlEmptyElemSyntax o
-  then [SRaw (s "<" ++ key ++ emit_attrs attrs ++ s "</" ++ key ++ s ">")]
-  else [SI (IEmpty key attrs)].
+  map SI (close_or_empty o key attrs).
 
 (* a scalar whose %v / escaped text is x *)
 Definition scalar_items (key : str) (x : str) : list sitem :=
